@@ -11,13 +11,13 @@ use std::collections::BTreeMap;
 use std::time::{Duration, SystemTime};
 
 pub fn def() -> CheckDef {
-    CheckDef { id: "C20", run, meta, dbg: false, replay: Some(replay) }
+    CheckDef { id: "C20", run, meta, dbg: true, replay: Some(replay) }
 }
 
 fn meta(_ctx: &Ctx) -> Meta {
     Meta {
         level: "exploration",
-        rule: "instants are constructed from integer (seconds, nanoseconds) pairs: every second in windows around 0, 2^31 and 2^32, sub-second offsets (1 ns, 0.5 s, 999 999 999 ns) on both sides of each boundary, extreme representable SystemTime / chrono values, fixed-offset zones from -14h to +14h incl. odd minutes, seeded random instants; each is converted through TryFrom<SystemTime> and TryFrom<DateTime<Tz>> and judged by integer arithmetic (floor seconds in 0..2^32 => exact value, earlier => Underflow, later => Overflow); ordering is checked on sorted samples; source files with mtimes set by utimensat go through PackageBuilder::with_file. distinct_nontrivial = distinct (kind, seconds, nanoseconds, zone) tuples".into(),
+        rule: "instants are constructed from integer (seconds, nanoseconds) pairs: every second in windows around 0, 2^31 and 2^32, sub-second offsets (1 ns, 0.5 s, 999 999 999 ns) on both sides of each boundary, extreme representable SystemTime / chrono values, fixed-offset zones from -14h to +14h incl. odd minutes, seeded random instants; each is converted through TryFrom<SystemTime> and TryFrom<DateTime<Tz>> and judged by integer arithmetic (floor seconds in 0..2^32 => exact value, earlier => Underflow, later => Overflow); ordering is checked on sorted samples; source files with mtimes set by utimensat go through PackageBuilder::with_file. Runs in release and in the overflow-checking verifdbg profile (smaller windows there). distinct_nontrivial = distinct (kind, seconds, nanoseconds, zone) tuples".into(),
         assumptions: vec!["SystemTime::UNIX_EPOCH ± Duration and chrono::DateTime::from_timestamp construct the instant they are asked for".into()],
         floor_distinct: 1000,
     }
@@ -95,7 +95,7 @@ fn observe(rep: &Report, local: &mut BTreeMap<String, u64>, hs: &mut Vec<u64>, s
                 Err(TimestampError::Overflow) => "overflow",
             };
             *local.entry(format!("{}.{}", if zone.is_some() { "chrono" } else { "systemtime" }, class)).or_insert(0) += 1;
-            hs.push((secs as u64).wrapping_mul(0x9E3779B97F4A7C15) ^ ((nanos as u64) << 20) ^ (zone.map(|z| z as u64 + 1).unwrap_or(0) << 52));
+            hs.push((secs as u64).wrapping_mul(0x9E3779B97F4A7C15) ^ ((nanos as u64) << 20) ^ (zone.map(|z| (z as u64).wrapping_add(1)).unwrap_or(0) << 52));
         }
         Ok(Ok(false)) => *local.entry("unrepresentable_instant_skipped".into()).or_insert(0) += 1,
         Ok(Err((key, what))) => rep.violation(key, what, json!({"secs": secs, "nanos": nanos, "zone": zone}), secs.unsigned_abs()),
@@ -114,7 +114,7 @@ fn set_mtime(path: &std::path::Path, secs: i64) -> bool {
 }
 
 fn run(ctx: &Ctx, rep: &Report) {
-    let win: i64 = ctx.tier.pick(100_000, 20_000_000);
+    let win: i64 = ctx.tier.pick(100_000, 20_000_000) / if ctx.is_dbg() { 20 } else { 1 };
     let centers = [0i64, 1 << 31, TWO32];
     // 0. the seconds next to each boundary with every sub-second offset and every zone
     {
@@ -201,7 +201,7 @@ fn run(ctx: &Ctx, rep: &Report) {
         rep.nontrivial_many(hs);
     }
     // 4. seeded random instants + ordering on sorted samples
-    let nrand: u64 = ctx.tier.pick(400_000, 300_000_000);
+    let nrand: u64 = ctx.tier.pick(400_000, 300_000_000) / if ctx.is_dbg() { 20 } else { 1 };
     let chunk = 2000u64;
     par_for(ctx.threads, nrand / chunk, 1, |k| {
         let mut rng = Rng::for_case(ctx.seed, "C20-random", k);
